@@ -66,6 +66,9 @@ def run(ck):
     gw = []
     statics = []
     for fid, (f2, chain) in sreach.items():
+        # the library's own code only: application handlers (tests/, examples/ in the thorough tier) are not pistache's serving path
+        if not (f2.file.startswith(facts.REPO + "/src/") or f2.file.startswith(facts.REPO + "/include/")):
+            continue
         for e in f2.events():
             g_ = None
             if e["k"] == "assign":
